@@ -52,7 +52,7 @@ def lock13(cfg):
         memo[sig] = out
         return out
 
-    def analyse(f, collect_only=False):
+    def analyse(f, collect_only=False, optimistic=False):
         tracked = {}
         for p in f.params:
             if (is_rcs(p['t']) and p.get('byref')) or is_rcs_ptr(p['t']) or is_rcs(p['t']):
@@ -194,6 +194,11 @@ def lock13(cfg):
                                     s_out |= set(cur_s) if c_ == 'I' else {c_}
                                 for c_ in ex[1]:
                                     f_out |= set(cur_f) if c_ == 'H' else {c_}
+                                if optimistic and ((set(ex[0]) & set('XM')) or 'N' in ex[1]):
+                                    # second pass: a callee that validates / consumes the section on SOME of its non-restart
+                                    # returns is taken to have validated it (the summaries are not correlated with the
+                                    # returned value; without this the may-analysis of returns would alarm on the tree)
+                                    f_out = {'N'}
                                 new[v] = (frozenset(s_out), frozenset(f_out))
                             if sm['opens']:
                                 mark_all_stale(st, None)
@@ -208,8 +213,11 @@ def lock13(cfg):
                         for d_, (s, fl) in st.items():
                             if d_ not in pidx:
                                 key = (e.get('loc'), tracked[d_])
-                                certain = (s == frozenset('O') and fl == frozenset('S'))
-                                rets[key] = rets.get(key, True) and certain
+                                if optimistic:
+                                    rets[key] = rets.get(key, False) or ('O' in s and 'S' in fl)
+                                else:
+                                    certain = (s == frozenset('O') and fl == frozenset('S'))
+                                    rets[key] = rets.get(key, True) and certain
             return st
 
         def refine(st, blk, i):
@@ -255,6 +263,8 @@ def lock13(cfg):
                 summ['exits'][ix] = (o[0] | cur[0], o[1] | cur[1])
         if collect_only:
             return summ
+        if optimistic:
+            return rets
         res.count('functions with read sections')
         res.functions.add(f.sig)
         stores = [e for b, i, e in f.elements() if _is_tree_store(f, e) is not None]
@@ -266,6 +276,10 @@ def lock13(cfg):
             if k[0] == 'call':
                 res.ob(False, {'rule': 'LOCK-13', 'function': sh(f.sig)[:120], 'site': fileline(k[1]), 'verdict': 'VIOLATION'})
             res.find(f, k[1], '%s: %s while read section `%s` is open but has not been validated since a later section was opened: what was read under `%s` (the child pointer, the slot to store into) may have changed before the lock word of the next node was sampled - a concurrent prefix split / collapse / replacement that completed in between goes unnoticed and the modification lands in a node that is no longer at this place of the tree (insert reports success, the key cannot be found)' % (f.short, k[3], k[2], k[2]), key='LOCK-13:%s:%s' % (k[2], k[3].split(' in ')[0][:30]), config=cfg.name)
+        may = analyse(f, False, True) or {}
+        for k_, v_ in (may.items() if isinstance(may, dict) else ()):
+            if v_:
+                rets[k_] = True
         for (loc, var), certain in sorted(rets.items(), key=str):
             res.count('definitive returns')
             res.ob(not certain, {'rule': 'LOCK-13', 'function': sh(f.sig)[:120], 'site': fileline(loc), 'section': var, 'verdict': 'VIOLATION' if certain else 'discharged'} if res.obligations < 400 else None)
